@@ -152,10 +152,14 @@ func Exec(line string) zv.Out {
 		out = execMarshal(s, t, tag, arg, tagset, false)
 	case "tm", "tm26": // time.Time stream: model-compared for a bare time.Time, T3 only for time fields inside structs / slices
 		out = execMarshal(s, t, tag, arg, tagset, true)
-		if s.Kind != "time" {
-			out.Go = ""
-		} else {
+		if s.Kind == "time" {
 			tagset["time:model-compared"] = true
+		} else if FitsExt(s) {
+			// extended embedding (lean/ZV/Model/C18Ext.lean): a struct whose fields are time.Time or time-free types
+			tagset["time:ext-model-compared"] = true
+			extTags(s, tag, tagset)
+		} else {
+			out.Go = ""
 		}
 	case "tu":
 		out = execTimeDecode(tag, unhx(arg), tagset)
@@ -163,6 +167,17 @@ func Exec(line string) zv.Out {
 		if InDomain(s, tag, BuildStr(s, t, arg), true) == "" {
 			out.Go = "in"
 			tagset["claimed-value-vs-proved-domain"] = true
+		}
+	case "xu": // strict Unmarshal into a struct with time fields, model-compared (ZV.Model.C18Ext.parseXStruct)
+		if !FitsExt(s) {
+			out.Go = "bad-op"
+			break
+		}
+		out.Go = UnmarshalDump(s, t, tag, unhx(arg))
+		if out.Go == "err" {
+			tagset["xu:err"] = true
+		} else {
+			tagset["xu:ok"] = true
 		}
 	case "u":
 		out.Go = UnmarshalDump(s, t, tag, unhx(arg))
